@@ -247,6 +247,18 @@ func seqRound(u *universe, be string, newState bool, kind string, rng *mrand.Ran
 		}
 	}
 	go func() { runErr <- sq.Run(ctx) }()
+	runDone := false
+	defer func() {
+		// Run closes the pool itself (deferred Close): wait for it, and never close it a second time
+		cancel()
+		if !runDone {
+			select {
+			case <-runErr:
+			case <-time.After(10 * time.Second):
+			}
+		}
+		s.pool = nil
+	}()
 	var wg sync.WaitGroup
 	half := pre + (total-pre)/2
 	for p, part := range [][]int{ids[pre:half], ids[half:]} {
@@ -339,6 +351,7 @@ func seqRound(u *universe, be string, newState bool, kind string, rng *mrand.Ran
 	cancel()
 	select {
 	case err := <-runErr:
+		runDone = true
 		if err != nil {
 			return "mempool-seq:run-error", "Run returned " + err.Error(), nil
 		}
